@@ -14,7 +14,7 @@ from ..oracles import c20_ref as R
 # masked position is 0, and 0 * inf = nan): fixes/C20-masked-values-non-finite.diff,
 # replays/C20/masked-value-*.json.  Non-finite garbage is written over masked *values* only when this
 # switch is on (masked keys are always covered); turn it on once the fix is merged.
-ENABLE_NONFINITE_MASKED_VALUES = os.environ.get("VERIF_C20_PENDING", "") == "1"      # default: off
+ENABLE_NONFINITE_MASKED_VALUES = True  # repaired in /repo by fcfe38d
 
 SIZES = [15, 16, 17, 31, 32, 33, 63, 64, 65, 127, 128, 129, 255, 256, 257, 1023, 1024, 1025, 2049]
 LAYOUTS = lmlay.LAYOUTS
